@@ -191,6 +191,15 @@ func judgeAltered(c *alterCtx, o *origInfo, alt []byte, where string, r *h.Rec) 
 			if d := match(true); d != "" {
 				return bad(d + " (trust store)")
 			}
+			for _, s := range itA.Signers {
+				known := false
+				for _, t := range o.itA.Signers {
+					known = known || bytes.Equal(s.Cert, t.Cert)
+				}
+				if !known {
+					r.Label("verifies-with-trust-store:extra-elements-after-certificate-signatureValue")
+				}
+			}
 		} else {
 			r.Label("outcome:trust-store-error")
 		}
